@@ -45,6 +45,7 @@ func (error *Error) MarshalJSON() ([]byte, error) {
 }
 
 func (error *Error) send(w http.ResponseWriter) {
+	vh("prove.error", error.StatusCode, error.Code)
 	w.WriteHeader(error.StatusCode)
 	jsonBytes, err := error.MarshalJSON()
 	if err != nil {
@@ -64,14 +65,18 @@ type Config struct {
 
 func spawnServerJob(server *http.Server, label string) RunningJob {
 	start := func() {
+		vh("srv.start.begin", label)
 		err := server.ListenAndServe()
+		vh("srv.start.end", label, err)
 		if err != nil && err != http.ErrServerClosed {
 			panic(fmt.Sprintf("%s failed: %s", label, err))
 		}
 	}
 	shutdown := func() {
 		logging.Logger().Info().Msgf("shutting down %s", label)
+		vh("srv.shutdown.begin", label)
 		err := server.Shutdown(context.Background())
+		vh("srv.shutdown.end", label, err)
 		if err != nil {
 			logging.Logger().Error().Err(err).Msgf("error when shutting down %s", label)
 		}
@@ -114,12 +119,15 @@ type proveHandler struct {
 }
 
 func (handler proveHandler) ServeHTTP(w http.ResponseWriter, r *http.Request) {
+	vh("prove.enter", r)
 	if r.Method != http.MethodPost {
 		w.WriteHeader(http.StatusMethodNotAllowed)
+		vh("prove.respond", r, http.StatusMethodNotAllowed)
 		return
 	}
 	logging.Logger().Info().Msg("received prove request")
 	buf, err := io.ReadAll(r.Body)
+	vh("prove.read", r)
 	if err != nil {
 		malformedBodyError(err).send(w)
 		return
@@ -135,7 +143,9 @@ func (handler proveHandler) ServeHTTP(w http.ResponseWriter, r *http.Request) {
 			return
 		}
 
+		vh("prove.decoded", r)
 		proof, err = handler.provingSystem.ProveInsertion(&params)
+		vh("prove.proved", r, err)
 	} else if handler.mode == DeletionMode {
 		var params prover.DeletionParameters
 
@@ -145,7 +155,9 @@ func (handler proveHandler) ServeHTTP(w http.ResponseWriter, r *http.Request) {
 			return
 		}
 
+		vh("prove.decoded", r)
 		proof, err = handler.provingSystem.ProveDeletion(&params)
+		vh("prove.proved", r, err)
 	}
 
 	if err != nil {
@@ -161,6 +173,7 @@ func (handler proveHandler) ServeHTTP(w http.ResponseWriter, r *http.Request) {
 
 	w.WriteHeader(http.StatusOK)
 	_, err = w.Write(responseBytes)
+	vh("prove.respond", r, http.StatusOK)
 
 	if err != nil {
 		logging.Logger().Error().Err(err).Msg("error writing response")
